@@ -55,8 +55,7 @@ Feat(tv) == IF tv.g \in {"ptr", "iface"} THEN UNION {Feat(tv.a[i]) : i \in 1..Le
                  \cup (IF \E i \in 1..Len(tv.a) : tv.a[i].g = "ptr" /\ tv.a[i].nil THEN {"nil-pointer-element"} ELSE {})
                  \cup UNION {Feat(tv.a[i]) : i \in 1..Len(tv.a)}
             ELSE IF tv.g = "struct" THEN
-                 (IF \E i, j \in 1..Len(tv.f) : i # j /\ tv.f[i].tp /\ tv.f[i].tn \in {tv.f[j].n, tv.f[j].l1, tv.f[j].la} THEN {"tag-names-other-member"} ELSE {})
-                 \cup UNION {IF ~tv.f[i].exp THEN {}
+                 UNION {IF ~tv.f[i].exp THEN {}
                              ELSE (IF tv.f[i].emb /\ tv.f[i].v.g = "ptr" THEN {"embedded-pointer"} ELSE {}) \cup Feat(tv.f[i].v) : i \in 1..Len(tv.f)}
             ELSE IF tv.g \in {"bool", "int", "uint8", "float", "string"} THEN (IF tv.name # "" THEN {"named-scalar"} ELSE {})
             ELSE {}
@@ -64,13 +63,25 @@ Feat(tv) == IF tv.g \in {"ptr", "iface"} THEN UNION {Feat(tv.a[i]) : i \in 1..Le
 \* struct pointer; the encoders panic on a named scalar field of a non-addressable struct; (results that differ:) a nil
 \* pointer element comes back as a pointer to a zero value; a member absent from tag-keyed data is filled through the
 \* name fallback from the key of another member
+\* as-implemented reading I6, computed exactly: a member j that is absent from tag-keyed data (omitempty and empty) while
+\* another member i carries j's Go name (exact, first letter lowered, all lower) as its tag comes back with i's value
+EmptyLeaf(v) == (v.g = "string" /\ v.s = "") \/ (v.g \in {"int", "uint8", "float"} /\ v.s = "0") \/ (v.g = "bool" /\ v.s = "false")
+RECURSIVE AsImpl6(_)
+AsImpl6(tv) == IF tv.g \in {"ptr", "iface", "slice", "array", "map"} THEN [tv EXCEPT !.a = [i \in 1..Len(tv.a) |-> AsImpl6(tv.a[i])]]
+               ELSE IF tv.g = "struct" THEN
+                    [tv EXCEPT !.f = [j \in 1..Len(tv.f) |->
+                        LET donors == {i \in 1..Len(tv.f) : i # j /\ tv.f[i].tp /\ tv.f[i].tn \in {tv.f[j].n, tv.f[j].l1, tv.f[j].la}} IN
+                        IF tv.f[j].exp /\ tv.f[j].oe /\ EmptyLeaf(tv.f[j].v) /\ donors # {} /\ tv.f[CHOOSE i \in donors : TRUE].v.g = tv.f[j].v.g
+                        THEN [tv.f[j] EXCEPT !.v = tv.f[CHOOSE i \in donors : TRUE].v]
+                        ELSE IF tv.f[j].exp THEN [tv.f[j] EXCEPT !.v = AsImpl6(tv.f[j].v)] ELSE tv.f[j]]]
+               ELSE tv
 Class(e) == LET F == Feat(e.orig) IN
             IF ~e.ok THEN (IF "embedded-pointer" \in F THEN "embedded-pointer" ELSE IF "bytes" \in F THEN "bytes-as-string"
                            ELSE IF "named-scalar" \in F THEN "named-scalar" ELSE IF "nil-pointer-element" \in F THEN "nil-pointer-element" ELSE "-")
             ELSE IF "embedded-pointer" \in F THEN "embedded-pointer"     \* sen.String yields "" for it (C15 F3), read back as nothing
             ELSE IF "named-scalar" \in F THEN "named-scalar"             \* likewise (C15 F11)
             ELSE IF "nil-pointer-element" \in F THEN "nil-pointer-element"
-            ELSE IF "tag-names-other-member" \in F THEN "tag-names-other-member" ELSE "-"
+            ELSE IF e.tagkeyed /\ ~Same(e.orig, AsImpl6(e.orig)) /\ Same(e.res, AsImpl6(e.orig)) THEN "tag-names-other-member" ELSE "-"
 JudgeRt(e) == (IF e.ok /\ Same(e.res, e.orig) THEN <<>>
                ELSE <<[i |-> c, kind |-> "not-inverse", api |-> e.api, t |-> Class(e), pos |-> 0, pred |-> <<>>, m |-> e.m]>>)
               \o (IF e.ok /\ e.alias /\ ~e.oalias
